@@ -7,6 +7,7 @@ GROUP = "float"
 LEAN_PROPS = "Dashu.Props.C03"
 LEAN_AUDIT = "Dashu.Audit.C03"
 USES_GEN = True
+READY = True
 GEN_PROPS = ["Dashu.Props.GenRound"]
 GEN_AUDIT = ["Dashu.Audit.GenRound"]
 
@@ -218,7 +219,7 @@ def gen_unlimited(rng, n):
             yield Case("f." + op, [fenc(B, a, ea, 0, m)], nontrivial=False)
 
 def generate(rng, tier):
-    k = 1 if tier == "quick" else 25
+    k = 1 if tier == "quick" else 80
     yield from gen_addsub(rng, 2600 * k)
     yield from gen_muldiv(rng, 1500 * k)
     yield from gen_unary(rng, 1500 * k)
@@ -238,28 +239,39 @@ RULE = ("modes x bases {2,3,10,16,36} x p in {1,2,3,5,8,24,53,100}; add/sub oper
         "with a half low part; sqrt: digit-count parity x exponent parity x perfect squares, k^2+-1, negative, zero; sqr/cubic/inv; the "
         "same through the Context methods with operands longer than p, 2p, 3p digits (c.* ops); unlimited precision. f.* cases run the "
         "Context method and all operator/method forms. distinct := distinct (op,args).")
-REFINED = ["Context::repr_round", "Context::mul/sqr/cubic", "FBig * FBig", "Context::repr_div / div / inv", "Context::sqrt",
-           "Context::add / sub, repr_add_large_small / repr_add_small_large / repr_round_sum", "Round::round_ratio"]
+REFINED = ["Context::repr_round", "Context::mul/sqr/cubic (operands <= 2p/3p digits; all operands without the pre-shrink)", "FBig * FBig",
+           "Context::repr_div / div (dividend <= rhs.digits+p) / inv, div_align", "Round::round_ratio",
+           "Context::sqrt (scaling + sqrt_rem rounding + half test)",
+           "Context::add / sub for operands that fit p: repr_add_large_small / repr_add_small_large (4 alignment branches), "
+           "repr_round_sum (3 re-alignment branches)"]
 FRONTIER = ["utils::shl_digits / shr_digits per-base fast paths (modelled as *B^k and truncating /B^k)",
             "UBig::sqrt_rem (modelled as Nat.sqrt; C12)",
-            "f32 estimate digits_ub / digits_lb: parameters with enclosure hypotheses (driver replica checked on every operand)"]
-EXPLANATION = ("Lean theorems over Rat for every base >= 2, precision >= 1 and mode: repr_round satisfies the rounding contract; "
-               "mul/sqr/cubic/with_precision follow from it; div via the quotient/remainder identity and round_ratio; add/sub: the model "
-               "equals repr_round(exact sum) whenever the alignment keeps all digits, the other alignments are covered by the "
-               "correspondence and the executable contract check beside every model result. Theorems about Context::mul/sqr/cubic as "
-               "they are carry the hypothesis `digits <= 2p (3p)` that excludes the recorded pre-shrink finding, with a counterexample.")
+            "f32 estimate digits_ub / digits_lb: parameters with enclosure hypotheses (driver replica checked on every operand)",
+            "clauses `x representable in p digits => exact` and `<= p+1 significant digits`: evaluated per case by the driver, not theorems"]
+EXPLANATION = ("Lean theorems over Rat for every base >= 2, precision >= 1, mode and operand: repr_round satisfies the rounding contract; "
+               "mul/sqr/cubic follow from it (operands up to 2p/3p digits, i.e. all that fit p); add/sub for ALL operands that fit p - "
+               "zero operands, equal exponents and the four alignment branches (far-apart with the sticky stand-in, two splitting "
+               "branches, full alignment) composed with the three re-alignment branches of repr_round_sum, for every sound digits_ub "
+               "estimator; repr_div / inv via the quotient-remainder identity, the digit analysis of its three re-alignment cases and "
+               "round_ratio; sqrt (comparisons with the irrational root stated on squares) for the scaling repaired by 92fc29e; the "
+               "documented panics of div and sqrt. Context methods on Reprs LONGER than the working length violate the contract in the "
+               "code as it is (pre-shrink double rounding in mul/sqr/cubic/div, single guard digit in add/sub): recorded findings, "
+               "partial theorems carry the excluding hypothesis, with a counterexample theorem. Beside every model result the driver "
+               "evaluates the contract in exact rational arithmetic.")
 ASSUMPTIONS = ["f32 log2 estimates satisfy their enclosure hypotheses (checked on every driven operand)",
                "IBig/UBig kernels (mul, div_rem, pow, sqrt_rem, shifts) at their specification (C01/C02/C12)"]
-LEVEL_TEXT = ("Machine-checked Lean 4 theorems (all bases, precisions, modes, operands) that rounding to precision and the operations "
-              "built directly on it honour the rounding contract stated over Rat, on top of the mode tables regenerated from "
-              "float/src/round.rs; every model result of the correspondence run is additionally checked against an executable form of "
-              "the contract evaluated in exact rational arithmetic. Alignment branches of add/sub with a sticky low part are "
-              "partially proved (see evidence); the model is tied to /repo by differential execution over operands built from every "
-              "branch condition, all call forms.")
+LEVEL_TEXT = ("Machine-checked Lean 4 theorems (all bases, precisions, modes, operands that fit the precision) that add, sub, mul, div, "
+              "inv, sqrt, sqr and cubic of the mirrored model honour the rounding contract stated over Rat (Exact iff equal; otherwise "
+              "< 1 ulp, <= 1/2 ulp for the nearest modes; side condition of the directed modes; AddOne/SubOne tell the side), on top of "
+              "the mode tables regenerated from float/src/round.rs; every model result of the correspondence run is additionally "
+              "checked against an executable form of the contract in exact rational arithmetic. The hand-written model is tied to "
+              "/repo by differential execution over operands built from every branch condition, all call forms (Context methods and "
+              "six operator forms).")
 LEVEL_NOTE = ("Trusted: Lean kernel; axioms propext/Classical.choice/Quot.sound; correspondence harness + generators (sampling) for the "
               "hand-written model; integer kernels at their specifications. Defects found here and repaired in /repo (sqrt double "
               "rounding and Exact flag 92fc29e, base-2 far-apart addition tie 0d97e26, sub from zero d197d6e) stay as regression "
               "cases in corpus/C03; the remaining ones (pre-shrink double rounding in mul/sqr/cubic/div and deep cancellation in "
               "add/sub, all only for Reprs longer than the working length, i.e. outside `operands that fit p`) are recorded in "
-              "known_findings.jsonl.")
+              "known_findings.jsonl. The two closing clauses of the property (representable => exact, <= p+1 digits) are evaluated "
+              "per case, not proved.")
 TECHNIQUE = "Lean 4 proofs over a mirrored model + executable rational contract check + differential correspondence"
